@@ -2,8 +2,11 @@
 
 Real code: python/fusion_engine_client (FusionEngineEncoder.encode_message, MessageHeader.pack / calculate_crc /
 validate_crc / unpack(validate_crc=True), FusionEngineDecoder, and `crc32` as imported by messages/defs.py) run
-in-process; src/point_one/fusion_engine/messages/crc.cc (+ crc.h IsValid, the framer) through cxx/c06_harness.cc,
-compiled on every run with ASan + UBSan.
+in-process - unpack() in every way its options can be written (unpack_forms(): validate_sync / validate_crc /
+warn_on_unrecognized / return_sync_bytes omitted, False or True, by keyword and positionally, offset 0 or not);
+src/point_one/fusion_engine/messages/crc.cc (+ crc.h IsValid, the framer) through cxx/c06_harness.cc + cxx/c06_startup.cc,
+compiled on every run with ASan + UBSan and linked in both orders (harness objects before / after the repository's): requests
+are answered from main() and - run_startup() - during static initialisation, before crc.cc's own initialisers have run.
 Model: FeVerif/Model/Crc32.lean, FeVerif/Model/Encoder.lean through the driver commands crcspec / crctab / crcsplit /
 crclin / encode / session (the encoder model stepped over a whole call history: type, version, source identifier - given or
 omitted - and payload are inputs of each call, the encoder object carries only its sequence number) / validate.
@@ -1310,8 +1313,8 @@ def judge_flip(ctx, label, msg, kind, bits, cx, follower, model_lines, model_pen
             ctx.count('unpack_call_forms_on_altered_messages', len(forms))
             if through:
                 replay['unpack_forms_accepting'] = [t for t, _ in through][:12]
-                accepted.append(('unpack-call-form', '%s %s the altered message%s' % (through[0][0], through[0][1], '' if len(through) == 1 else
-                                 ' (and %d more of the call forms tried that request validate_crc)' % (len(through) - 1))))
+                accepted.append(('unpack-call-form', '%s accepts the altered message (%s)%s' % (through[0][0], through[0][1], '' if len(through) == 1 else
+                                 ' (as do %d more of the %d call forms tried, all of which request validate_crc)' % (len(through) - 1, len(forms)))))
     run_decoders = cx is not None
     if run_decoders:
         if small and phase is None:
@@ -1533,6 +1536,16 @@ def check(ctx):
                        'Corruption: for every distinct encoded message every single-bit flip of bytes [4, end), double flips (all pairs for messages '
                        '<= 64 bytes, sampled otherwise), bursts <= 32 bits at random positions inside one region; each altered copy given to '
                        'unpack(validate_crc=True), FusionEngineDecoder (alone and followed by a valid message), IsValid, the CRC compare and the C++ framer. '
+                       'unpack() call forms: validate_sync / validate_crc / warn_on_unrecognized / return_sync_bytes each omitted, False or True by '
+                       'keyword (81) x offset omitted / non-zero positional / non-zero by keyword, + the options given positionally at offset 0 and '
+                       'non-zero (291 forms): all of them on every message of the encoder sessions (accepted, documented return value, header fields), '
+                       'the 105 that request validate_crc on every altered copy of three short messages (one per length <= 64 thorough) and three of '
+                       'them in rotation on every other altered copy (must refuse); the exhaustive Python double flips rotate through the offset-0 forms. '
+                       'WHEN the C++ routines are called: the harness is linked in both orders (its objects before / after crc.cc) and the requests - '
+                       'all 1- and 2-byte buffers, the random buffers, every split point, the session messages (300 sampled in the quick tier), all '
+                       'alterations of 8 messages (22 thorough) and the exhaustive double flips of two - are answered once during static '
+                       'initialisation (constructor of a namespace-scope object of cxx/c06_startup.cc) and once more from main() of the same process; '
+                       'judged by the same oracle (zlib value / accepted / refused). '
                        'Boundary values: for every such message payload_size_bytes set to every boundary of 24 + size against 2^24, against the '
                        'bytes that exist and against 2^k (k = 7..32, both sides; 24 + size = 2^32 - 2 .. 2^32 + 23 each); for one message per '
                        'distinct length the top k / low k bits (k = 1..32) of each 32-bit header field and every 32-bit window overlapping the '
